@@ -215,7 +215,9 @@ def signature(S: L.Schema, F: str, kind: str, phase: str, observed: str, v, shp=
     if F == "toml" and (phase in ("decode", "roundtrip") or phase_class == "decode-or-roundtrip"):
         hits = none_fields_without_none_default(S, v)
         if hits:
-            if any(f'MissingField: Field "{h}"' in observed for h in hits):
+            # (a union position swallows the member's MissingField and reports ValueError(<the document>))
+            if any(f'MissingField: Field "{h}"' in observed for h in hits) or \
+                    (phase != "roundtrip" and not phase.endswith("-doc") and ("<- ValueError: {" in observed or observed.startswith("ValueError: {"))):
                 sig["kind"] = "toml-omitted-none-field-without-none-default"
             elif phase == "roundtrip" or (phase_class == "decode-or-roundtrip" and "Error" not in observed.split(":")[0]):
                 sig["kind"] = "toml-omitted-none-field-without-none-default"
@@ -396,7 +398,10 @@ def correspondence_cases(ctx: vlib.Ctx, n_schemas: int, n_values: int):
     cases, descr = [], []
     for si in range(n_schemas):
         jsonkind = rng.choice(["json", "orjson"])
-        S = L.Schema(rng, jsonkind, small=True)
+        # a third of the schemas enable ADD_DIALECT_SUPPORT and are driven with a call-time dialect that covers
+        # nothing: the model's prediction is unchanged (the format's own dialect must still apply)
+        dm = rng.random() < 0.35
+        S = L.Schema(rng, jsonkind, small=True, dialect_mode=dm)
         root = S.new_dc(rng.choice([1, 2, 2, 3]), root=True)
         src = S.source()
         modname = f"c04_corr_{ctx.seed}_{si}"
@@ -409,14 +414,15 @@ def correspondence_cases(ctx: vlib.Ctx, n_schemas: int, n_values: int):
                 tab, unrepr = [], {}
                 pvc = L.coq_pv(v, root, S, tab, unrepr)
                 tabc = "[" + "; ".join(f"({k}, {vlib.coq_str(p)}, {vlib.coq_str(t)})" for k, p, t in dict.fromkeys(tab)) + "]"
-                basic = v.to_dict()
+                xd = mod.__dict__["XD_empty"] if dm else None
+                basic = v.to_dict(dialect=xd) if dm else v.to_dict()
                 for F in FORMATS:
                     if F in ("json", "orjson") and F != jsonkind:
                         continue
                     if F == "orjson" and has_orjson_bad_time(v) and orjson_time_defect_present():
                         ctx.hist("correspondence_skipped", "orjson-library-time-defect")
                         continue
-                    entry = L.Entry(F, "mixin", rootcls)
+                    entry = L.Entry(F, "mixin", rootcls, dialect=xd)
                     nb = entry.native_tree(v)
                     why = L.outside_subset(F, v)
                     parsed, dec = "None", "DecOther"
@@ -435,7 +441,7 @@ def correspondence_cases(ctx: vlib.Ctx, n_schemas: int, n_values: int):
                                      L.FMT[F], tyc, pvc, tabc, bad, L.coq_bv(nb), L.coq_bv(basic),
                                      "true" if why is None else "false", parsed, dec))
                     descr.append({"format": F, "src": src, "root": root.name, "value_src": L.vsrc(v), "outside": why, "dec": dec})
-                    ctx.hist("correspondence_formats", F + (":outside-subset" if why else ""))
+                    ctx.hist("correspondence_formats", F + (":outside-subset" if why else "") + (":call-dialect" if dm else ""))
         except Exception as e:   # the implementation raised where the model is total: keep going, report
             ctx.hist("correspondence_errors", type(e).__name__)
             if not any(u["name"].startswith("correspondence: implementation raised") for u in ctx.unshown):
@@ -589,7 +595,7 @@ def run(ctx: vlib.Ctx):
     correspondence(ctx)
     broken = bool(ctx.unshown)
     names_oracle(ctx)
-    n_s, n_v = ctx.budget(160, 1100), ctx.budget(5, 8)
+    n_s, n_v = ctx.budget(160, 850), ctx.budget(5, 8)
     if broken:      # a proof obligation or the correspondence broke: search harder for a failing input
         n_s = ctx.budget(260, 3000)
     law_fail = oracle(ctx, n_s, n_v)
